@@ -52,6 +52,7 @@ type Outcome struct {
 type failure struct {
 	marker  string
 	timeout bool
+	null    bool // not a failure: the raw program completes returning null
 }
 
 // Eval is the reference evaluator.  in is not modified.
@@ -63,6 +64,9 @@ func (p *Prog) Eval(in map[string]interface{}) Outcome {
 	var emitted []interface{}
 	f := runOps(p.Ops, bs, &emitted)
 	if f != nil {
+		if f.null {
+			return Outcome{Null: true, Emitted: emitted}
+		}
 		return Outcome{Failed: true, Marker: f.marker, Timeout: f.timeout}
 	}
 	switch p.Ret {
@@ -143,6 +147,12 @@ func runOps(ops []Op, bs map[string]interface{}, emitted *[]interface{}) *failur
 			}
 		case "fail":
 			return &failure{marker: op.V.(string)}
+		case "raw":
+			// hand-written ECMAScript (V) that fails with marker K, or (K2 == "null") completes returning null
+			if op.K2 == "null" {
+				return &failure{null: true}
+			}
+			return &failure{marker: op.K, timeout: op.K2 == "timeout"}
 		case "outbad", "outnan":
 			// _.out() of a value that cannot be serialised fails the action
 			return &failure{marker: ""}
@@ -246,6 +256,8 @@ func jsOps(sb *strings.Builder, ops []Op, ind string) {
 			fmt.Fprintf(sb, "%s}\n", ind)
 		case "fail":
 			fmt.Fprintf(sb, "%sthrow new Error(%s);\n", ind, js(op.V))
+		case "raw":
+			fmt.Fprintf(sb, "%s%s\n", ind, op.V.(string))
 		case "outbad":
 			fmt.Fprintf(sb, "%s_.out({\"id\": \"unserialisable\", \"f\": function(){}});\n", ind)
 		case "outnan":
@@ -279,7 +291,11 @@ func (p *Prog) Native(mode NativeMode) core.Action {
 		}
 		o := p.Eval(in)
 		if o.Failed {
-			err := errors.New(o.Marker)
+			msg := o.Marker
+			if msg == "" {
+				msg = "failure"
+			}
+			err := errors.New(msg)
 			if mode == NativePartialErr {
 				exe := core.NewExecution(match.Bindings{"partial": true})
 				exe.AddEmitted(map[string]interface{}{"id": "partial-from-failed-native-action"})
